@@ -27,7 +27,17 @@ func c10MkObj(m map[string]interface{}, r *rand.Rand) scte35.SegmentationDescrip
 		d.SetUPIDType(scte35.SegUPIDMID)
 		u1 := scte35.CreateUPID()
 		u1.SetUPIDType(scte35.SegUPIDADI)
-		u1.SetUPID([]byte("BLACKOUT:" + v))
+		// the signal id is what follows "BLACKOUT:"; a bare marker, an empty id and a marker inside a longer string are legal too
+		adi := "BLACKOUT:" + v
+		switch v {
+		case "bare":
+			adi = "BLACKOUT"
+		case "colon":
+			adi = "BLACKOUT:"
+		case "inner":
+			adi = "x-BLACKOUT:z"
+		}
+		u1.SetUPID([]byte(adi))
 		u2 := scte35.CreateUPID()
 		u2.SetUPIDType(scte35.SegUPADSINFO)
 		u2.SetUPID([]byte("comcast:linear:licenserotation"))
@@ -42,11 +52,15 @@ func c10MkObj(m map[string]interface{}, r *rand.Rand) scte35.SegmentationDescrip
 func c10Obs(d scte35.SegmentationDescriptor, id int) Ev {
 	o := obsDesc(d)
 	o["id"] = id
-	if sig, err := d.StreamSwitchSignalId(); err != nil {
-		o["vss"] = "none"
-	} else {
-		o["vss"] = "sig:" + sig
-	}
+	// (the getter is asked under its own guard: what a tracker call does with the descriptor is judged at that call)
+	o["vss"] = "getter-panicked"
+	guard(func() {
+		if sig, err := d.StreamSwitchSignalId(); err != nil {
+			o["vss"] = "none"
+		} else {
+			o["vss"] = "sig:" + sig
+		}
+	})
 	return o
 }
 
@@ -166,9 +180,17 @@ func c10History(r *rand.Rand, i int, withRing bool) []Ev {
 		e := absToEv(a)
 		e["vss"] = "none"
 		if t == 0x40 && r.Intn(5) != 0 {
-			e["vss"] = []string{"a", "b", "c"}[r.Intn(3)]
+			e["vss"] = []string{"a", "b", "c", "bare", "colon", "inner", "bare"}[r.Intn(7)]
 		}
 		objs = append(objs, e)
+	}
+	if !ring && i%13 == 3 && nobj >= 4 {
+		// several unscheduled event starts of one event and one time, with and without stream-switch signal ids (all spellings)
+		for k := 0; k < 4; k++ {
+			objs[k]["type"], objs[k]["eid"], objs[k]["haspts"], objs[k]["pts"] = 0x40, []int{0, 1}, true, W64(7000)
+			objs[k]["hassub"], objs[k]["subnum"], objs[k]["subexp"] = false, 0, 0
+			objs[k]["vss"] = []string{"a", "b", "bare", "colon", "inner", "none", "bare"}[r.Intn(7)]
+		}
 	}
 	nsteps := 4 + r.Intn(22)
 	var steps [][2]interface{}
